@@ -1053,7 +1053,10 @@ class Session:
     def _y_argument(self, a):
         """the array handed to backward: the very object forward returned, or its values
         in another stored representation"""
-        if isinstance(a.Y, np.ndarray) and self.rng.random() < 0.6:
+        if isinstance(a.Y, np.ndarray) and self.rng.random() < 0.6 and \
+                np.array_equal(np.array(a.Y, dtype=np.float64).ravel(), np.array(a.Yvals), equal_nan=True):
+            # (an array that no longer holds what forward returned - it shares memory with something
+            # changed since - is not passed on: nothing is asserted about results sharing memory)
             return a.Y, "as-returned"
         kind = self.rng.choice(REPRS)
         return Buf(a.Yvals, kind).arr, kind
